@@ -6,9 +6,11 @@ import (
 	"errors"
 	"fmt"
 	"io"
+	"runtime/debug"
 	"sort"
 
 	u "github.com/utreexo/utreexo"
+	"vmc/ref"
 )
 
 // E4 `faults`: reader/writer fault enumeration for serialization (C13).
@@ -531,6 +533,22 @@ func init() {
 		if !c.Expired() {
 			BFS(c, famD, 0)
 		}
+		// (f) map forests started from the bare roots of accumulators with 2^5 .. 2^63-4 leaves (plus
+		// 0..2 added leaves, remembered): written, restored into a fresh instance, compared
+		{
+			var evals int64
+			sts := offsetStates(offsetBases(c.Thorough()), 2)
+			c.Cov.Bound["F.offset_start_states"] = len(sts)
+			for _, st := range sts {
+				for _, full := range []bool{false, true} {
+					evals++
+					c.Col.Add(evalFromRootsRT(fromRootsRT{Base: st.Base, Full: full, N: st.N(), Alive: boolKey(st.Alive)})...)
+				}
+			}
+			c.Cov.AddStates(int64(len(sts)))
+			c.Cov.AddTransitions(evals)
+			c.Cov.AddEvals(evals)
+		}
 		// (e) size prediction under query schedules: SerializeSize / GetTotalCount queried after no /
 		// block / undo / every operation of a history with up to two undos; at the end of every
 		// history the prediction and the returned counts must equal the bytes produced
@@ -541,5 +559,78 @@ func init() {
 			BFS(c, &HistFamily{Nmax: ne, Insts: []InstCfg{{Kind: "pollard"}, {Kind: "pollard", SizeQ: "block"}, {Kind: "pollard", SizeQ: "undo"}, {Kind: "pollard", SizeQ: "all"}, {Kind: "map", Full: true, TR: 0}, {Kind: "map", Full: false, TR: 63, Mode: "even"}},
 				Or: HistOracle{Sizes: true, Prop: "C13"}, UndoBud: 2}, 0)
 		}
+	}
+}
+
+// fromRootsRT: one case of C13 part (f).
+type fromRootsRT struct {
+	Base  uint64 `json:"base"`
+	Full  bool   `json:"full"`
+	N     int    `json:"added"`
+	Alive string `json:"alive"`
+}
+
+func evalFromRootsRT(fc fromRootsRT) (out []Violation) {
+	hist := fmt.Sprintf("fromroots base=%d full=%v add=%d alive=%s", fc.Base, fc.Full, fc.N, fc.Alive)
+	cs := mkCase("fromroots-rt", fc)
+	defer func() {
+		if r := recover(); r != nil {
+			out = append(out, panicViolation("C13", r, debug.Stack(), cs, hist))
+		}
+	}()
+	rep := func(sig, detail string) {
+		out = append(out, Violation{Prop: "C13", Sig: sig, Detail: hist + ": " + detail, Case: cs, CaseID: hist})
+	}
+	L := ref.APILayout(ref.State{Base: fc.Base})
+	m := u.NewMapPollardFromRoots(append([]Hash(nil), L.Roots...), fc.Base, fc.Full)
+	if fc.N > 0 {
+		if err := m.Modify(leavesFor(0, fc.N, func(int) bool { return true }), nil, u.Proof{}); err != nil {
+			return
+		}
+		var dels []int
+		for i, ch := range fc.Alive {
+			if ch != '1' {
+				dels = append(dels, i)
+			}
+		}
+		if len(dels) > 0 {
+			full0 := ref.State{Base: fc.Base}.Apply(nil, fc.N)
+			if err := m.Modify(nil, ref.Hashes(dels), ref.APILayout(full0).Proof(dels)); err != nil {
+				return
+			}
+		}
+	}
+	var buf bytes.Buffer
+	n, err := m.Write(&buf)
+	if err != nil {
+		rep("Write failed on a map forest started from bare roots", err.Error())
+		return
+	}
+	if n != buf.Len() {
+		rep("MapPollard write byte count disagrees", fmt.Sprintf("returned %d, produced %d", n, buf.Len()))
+	}
+	total := buf.Len()
+	m2 := u.NewMapPollard(fc.Full)
+	nr, err := m2.Read(&buf)
+	if err != nil {
+		rep("restore fails on a valid stream: map forest started from bare roots", fmt.Sprintf("%v (consumed %d of %d bytes)", err, nr, total))
+		return
+	}
+	if nr != total {
+		rep("restore reports a byte count different from the stream length: map forest started from bare roots", fmt.Sprintf("returned %d of %d", nr, total))
+	}
+	if a, b := DumpMap(&m), DumpMap(&m2); a != b {
+		rep("restored map forest differs from the original (started from bare roots)", "dumps differ")
+	}
+	return
+}
+
+func init() {
+	Engines["fromroots-rt"] = func(prop string, payload json.RawMessage) ([]Violation, error) {
+		var fc fromRootsRT
+		if err := json.Unmarshal(payload, &fc); err != nil {
+			return nil, err
+		}
+		return evalFromRootsRT(fc), nil
 	}
 }
